@@ -195,7 +195,19 @@ def canon(v, big: int = 400):
         return _canon_scalar(v)
     if isinstance(v, os.PathLike):
         return "path:" + str(v)
-    return "repr:" + type(v).__name__ + ":" + repr(v)[:200]
+    tname = type(v).__name__
+    if tname == "ReferenceValueMap":
+        return {"value_map": canon(getattr(v, "map", None), big)}
+    if tname == "ColorMap":
+        return {"color_map": getattr(v, "name", None), "values": canon(getattr(v, "_values", None), big)}
+    if tname.endswith("PropertyGroup") and hasattr(v, "uid"):
+        return "pg:" + str(v.uid)
+    if hasattr(v, "uid") and hasattr(v, "name"):
+        return "obj:" + tname + ":" + str(getattr(v, "uid", ""))
+    r = repr(v)
+    if " object at 0x" in r:
+        return "obj:" + tname
+    return "repr:" + tname + ":" + r[:200]
 
 
 def canon_key(k):
